@@ -301,8 +301,75 @@ async fn snapshot_big_records(lens: Vec<usize>) -> Result<(), String> {
     }
 }
 
+thread_local! {
+    /// operation list of the replay file (scenarios that replay a solver history read it)
+    static OPS: std::cell::RefCell<Vec<serde_json::Value>> = std::cell::RefCell::new(vec![]);
+}
+
+/// C05 at the level async-raft sees (s05_4): save_hard_state / membership saves on a real node, get_initial_state after every step and
+/// after a restart on a copy of the data directory must report the last acknowledged hard state and membership.
+async fn filestore_hard_state() -> Result<(), String> {
+    use async_raft_ext::storage::HardState;
+    let ops: Vec<serde_json::Value> = OPS.with(|o| o.borrow().clone());
+    let d1 = tempfile::tempdir().unwrap();
+    let d2 = tempfile::tempdir().unwrap();
+    let node = boot(d1.path()).await;
+    let mut want: (u64, Option<u64>) = (0, None);
+    let mut members: Vec<u64> = vec![];
+    let check = |st: &async_raft_ext::storage::InitialState, want: &(u64, Option<u64>), members: &Vec<u64>, at: String| -> Result<(), String> {
+        if st.hard_state.current_term != want.0 {
+            return Err(format!("{}: get_initial_state reports term {}, the last acknowledged save has {}", at, st.hard_state.current_term, want.0));
+        }
+        if st.hard_state.voted_for != want.1 {
+            return Err(format!("{}: get_initial_state reports vote {:?}, the last acknowledged save has {:?}", at, st.hard_state.voted_for, want.1));
+        }
+        let mut got: Vec<u64> = st.membership.members.iter().cloned().collect();
+        got.sort();
+        if !members.is_empty() && &got != members {
+            return Err(format!("{}: get_initial_state reports members {:?}, {:?} were acknowledged", at, got, members));
+        }
+        Ok(())
+    };
+    for (k, op) in ops.iter().enumerate() {
+        match op["op"].as_str().unwrap_or("") {
+            "save-hard-state" => {
+                let hs = HardState { current_term: op["term"].as_u64().unwrap_or(0), voted_for: op["vote"].as_u64() };
+                node.store.save_hard_state(&hs).await.map_err(|e| format!("save_hard_state is answered with an error: {}", e))?;
+                want = (hs.current_term, hs.voted_for);
+            }
+            "save-member" => {
+                let mut addrs = std::collections::HashMap::new();
+                addrs.insert(1u64, Arc::new("a:1".to_owned()));
+                addrs.insert(2u64, Arc::new("b:2".to_owned()));
+                node.index
+                    .send(RaftIndexRequest::SaveMember { member: vec![1, 2], member_after_consensus: None, node_addr: Some(addrs) })
+                    .await
+                    .map_err(|e| format!("MODEL: {}", e))?
+                    .map_err(|e| format!("a membership save is answered with an error: {}", e))?;
+                members = vec![1, 2];
+            }
+            other => return Err(format!("MODEL: unknown op {}", other)),
+        }
+        let st = node.store.get_initial_state().await.map_err(|e| format!("get_initial_state fails: {}", e))?;
+        check(&st, &want, &members, format!("same process, after step {}", k + 1))?;
+    }
+    tokio::time::sleep(Duration::from_millis(100)).await;
+    for item in std::fs::read_dir(d1.path()).unwrap() {
+        let item = item.unwrap();
+        if item.file_name().to_string_lossy() != "db_lock" && item.path().is_file() {
+            std::fs::copy(item.path(), d2.path().join(item.file_name())).unwrap();
+        }
+    }
+    let restarted = boot(d2.path()).await;
+    let st = restarted.store.get_initial_state().await.map_err(|e| format!("get_initial_state fails after the restart: {}", e))?;
+    check(&st, &want, &members, "after restart".to_string())
+}
+
 async fn scenario(name: &str) -> Result<(), String> {
     use tokio::io::AsyncWriteExt;
+    if name == "filestore_hard_state" {
+        return filestore_hard_state().await;
+    }
     if let Some(l) = name.strip_prefix("snapshot_big_records_") {
         return snapshot_big_records(l.split('_').filter_map(|x| x.parse().ok()).collect()).await;
     }
@@ -415,6 +482,33 @@ async fn scenario(name: &str) -> Result<(), String> {
                 return Err(format!("the entry appended at the cut index is not the one returned: {:?}", last.iter().map(|e| (e.index, e.term)).collect::<Vec<_>>()));
             }
         }
+        "pointer_inside_file_then_reopen" => {
+            // C02 / C03 at the catalogue level (s02_8): a snapshot pointer that falls inside the current log file; the entries it covers must stay
+            // removed after a reopen (the split-off index of that file has to reach the saved catalogue)
+            let node = boot(d2.path()).await;
+            for i in 1..=6u64 {
+                let e = Entry { term: 1, index: i, payload: EntryPayload::Normal(EntryNormal { data: config_set("b.yaml", "b", i) }) };
+                node.store.append_entry_to_log(&e).await.map_err(|e| format!("MODEL: append {}: {}", i, e))?;
+            }
+            let (id, mut file) = node.store.create_snapshot().await.map_err(|e| format!("MODEL: create_snapshot: {}", e))?;
+            file.write_all(&bytes).await.unwrap();
+            file.flush().await.unwrap();
+            node.store.finalize_snapshot_installation(s_index, s_term, Some(s_index), id, file).await.map_err(|e| format!("MODEL: install: {}", e))?;
+            tokio::time::sleep(Duration::from_millis(200)).await;
+            let live: Vec<u64> = node.store.get_log_entries(1, 7).await.map_err(|e| format!("MODEL: query: {}", e))?.iter().map(|e| e.index).collect();
+            if live.iter().any(|i| *i < s_index) || !live.ends_with(&[4, 5, 6]) {
+                return Err(format!("MODEL: the scenario's own set-up did not take: entries {:?} are readable behind a pointer at {}", live, s_index));
+            }
+            let (_e, _a) = stop_and_copy(&node, d2.path(), d3.path()).await;
+            let restarted = boot(d3.path()).await;
+            let after: Vec<u64> = restarted.store.get_log_entries(1, 7).await.map_err(|e| format!("query after the reopen fails: {}", e))?.iter().map(|e| e.index).collect();
+            if after != live {
+                return Err(format!(
+                    "a snapshot pointer at {} falls inside the current log file: before the reopen entries {:?} are returned for [1, 7), after it {:?} - entries removed by the compaction come back",
+                    s_index, live, after
+                ));
+            }
+        }
         "three_paths_same_state" => {
             // C07: the same committed requests through (a) the leader's apply path (done by `leader` above: entries 1..=3),
             // (b) the follower's batch replication path, (c) start-up replay of the log on a restarted node
@@ -514,6 +608,7 @@ pub fn replay_file() {
     let txt = std::fs::read_to_string(&path).expect("replay file unreadable");
     let v: serde_json::Value = serde_json::from_str(&txt).expect("replay file not json");
     let mode = v["mode"].as_str().unwrap_or("validate").to_string();
+    OPS.with(|o| *o.borrow_mut() = v["ops"].as_array().cloned().unwrap_or_default());
     let names: Vec<String> = v["scenarios"].as_array().cloned().unwrap_or_default().iter().map(|x| x.as_str().unwrap_or("").to_string()).collect();
     let results: Vec<(String, Result<(), String>)> = actix_rt::System::new().block_on(async move {
         let mut out = vec![];
